@@ -406,6 +406,23 @@ def R5_bundle(run):
     run.check("R5", "delete-gated", ok, "delete_position_bundle is not gated by is_deletable", loc=h.loc(), detail="!is_deletable => PositionBundleNotDeletable")
     d = facts.need_fn("state::position_bundle::PositionBundle::is_deletable")
     ok = any(at.cond() and at.cond()[0] in ("Ne", "Eq") and const_val(at.cond()[2]) == 0 and ({("const", 0)} in (at.true_ret, at.false_ret)) for at in A.atoms(d))
+    if not ok:
+        # the same predicate as an iterator: position_bitmap.iter().all(|b| *b == 0)
+        pvd = prov_of(d)
+        for bi, bb in enumerate(d.blocks):
+            if bb["t"]["k"] != "ret":
+                continue
+            r = strip(pvd.local(0, bi, len(bb["s"])))
+            if r[0] == "call" and r[1].endswith("::all") and len(r[2]) == 2 and mentions(r[2][0], lambda t: t[0] == "field" and t[2] == "position_bitmap"):
+                cl = [x for x in subterms(r[2][1]) if x[0] == "closure"]
+                cf = facts.fn(cl[0][1]) if len(cl) == 1 else None
+                if cf is not None:
+                    pc = prov_of(cf)
+                    for bj, cb in enumerate(cf.blocks):
+                        if cb["t"]["k"] == "ret":
+                            v = strip(pc.local(0, bj, len(cb["s"])))
+                            ok = v[0] == "bin" and v[1] == "Eq" and {const_val(v[2]), const_val(v[3])} >= {0} and \
+                                any(strip(x)[0] == "param" for x in (v[2], v[3]))
     run.check("R5", "deletable-all-zero", ok, "is_deletable does not return false on the first non-zero bitmap byte", loc=d.loc(), detail="any byte != 0 => false")
     # handlers pass the instruction's index and it matches the PDA seed
     for name in ("open_bundled_position", "close_bundled_position"):
